@@ -54,6 +54,7 @@ def run(ctx):
     every_alias(ctx)
     expression_spellings(ctx)
     inline_union_orders(ctx)
+    length_literal_spellings(ctx)
     imported_generic_orders(ctx)
     for k in range(4 if quick else 24):
         ns = "Sp" + "abcdefghijklmnopqrstuvwxyz"[k % 26] + ("x" * (k // 26))
@@ -169,6 +170,31 @@ def inline_union_orders(ctx):
                        dict(rep, output=out, reference_output=base[1]))
         elif rc == 0 and sc != base[2]:
             ctx.report("different-schema:definition-order", "the order '%s' of the definitions changes the embedded schema" % name, rep)
+
+
+def length_literal_spellings(ctx):
+    """the length of a fixed vector written in the short syntax (`T*N`) and in the expanded one (`!vector {items, length}`) with
+    the same literal - decimal, leading zero, hexadecimal, octal, binary: one verdict, one generated tree"""
+    for lit in ("3", "010", "0x10", "0o7", "0b101", "00"):
+        res = {}
+        for style, text in (("short", "V: !record\n  fields:\n    v: float32*%s\n    w: 'int8*%s'\n" % (lit, lit)),
+                            ("expanded", "V: !record\n  fields:\n    v: !vector {items: float32, length: %s}\n    w: !vector\n      items: int8\n      length: %s\n" % (lit, lit))):
+            d = os.path.join(ctx.scratch, "lenlit", lit, style)
+            os.makedirs(d + "/model")
+            open(d + "/model/_package.yml", "w").write("namespace: Ll\n%s" % CFG)
+            open(d + "/model/model.yml", "w").write(text + "\nP: !protocol\n  sequence:\n    v: V\n")
+            rc, o, e = sh([ctx.yardl, "generate"], cwd=d + "/model", timeout=120)
+            res[style] = (rc, (o + e)[-400:], tree(d + "/out") if rc == 0 else {}, text)
+        a, b = res["short"], res["expanded"]
+        ctx.case(("length-literal", lit), sample={"crafted": "vector length literal %s" % lit, "accepted": [a[0] == 0, b[0] == 0], "identical_tree": a[2] == b[2]})
+        rep = {"literal": lit, "short_spelling": a[3], "expanded_spelling": b[3], "short_output": a[1], "expanded_output": b[1]}
+        if (a[0] == 0) != (b[0] == 0):
+            ctx.report("rejected-spelling:length-literal", "the vector length `%s` is %s in the short syntax and %s in the expanded syntax"
+                       % (lit, "accepted" if a[0] == 0 else "rejected", "accepted" if b[0] == 0 else "rejected"), rep)
+        elif a[0] == 0 and a[2] != b[2]:
+            diff = sorted(f for f in set(a[2]) | set(b[2]) if a[2].get(f) != b[2].get(f))
+            ctx.report("different-code:length-literal", "the vector length `%s` means different lengths in the short and in the expanded syntax "
+                       "(%d generated files differ: %s)" % (lit, len(diff), diff[:4]), dict(rep, files_differ=diff[:20]))
 
 
 def every_alias(ctx):
